@@ -11,48 +11,57 @@
 EXTENDS Alloc, Judge
 VARIABLES l, sync, kind, mlive, pl, plive, pcap
 tvars == <<l, sync, kind, mlive, pl, plive, pcap>>
-Arena == 1048576
+Arena == 1048576                 \* unit 1: bytes
+ArenaU == 1610612736             \* unit 8: 12 GiB in units of 8 bytes
 Guard == <<165, 165, 165, 165, 165, 165, 165, 165>>
 B2I(b) == IF b THEN 1 ELSE 0
 
-Overlaps(o1, n1, o2, n2) == o1 < o2 + n2 /\ o2 < o1 + n1
+\* Monitor quantities are in the units of the trace: bytes (unit 1, arena of 1 MiB) or 8-byte units (unit 8, arena of 12 GiB, byte
+\* counts of 2 GiB, 4 GiB and more: offsets are logged divided by 8, the remainders summed in ev.rem; sizes as nh * 2^20 + nl).
+\* Sums that could pass 2^31 are avoided (differences instead).
+Wide(ev) == ev.unit = 8
+ReqP(ev) == IF Wide(ev) THEN RoundWide(ev.nh, ev.nl) ELSE RoundBytes(ev.n)         \* payload units the model allocates
+ReqN(ev) == IF Wide(ev) THEN ev.nh * 131072 + (ev.nl + 7) \div 8 ELSE ev.n           \* what the caller may use, in trace units
+Overlaps(o1, n1, o2, n2) == o1 - o2 < n2 /\ o2 - o1 < n1
 \* property clauses for a block [off, off+n) given the other live blocks
-BlockErrs(id, offv, n, others) ==
+BlockErrs(ev, id, offv, n, others) ==
    (IF offv < 0 THEN {"null_returned"} ELSE
-      (IF offv % 8 # 0 THEN {"alignment"} ELSE {})
-      \cup (IF offv + n > Arena THEN {"outside_arena"} ELSE {})
+      (IF (IF Wide(ev) THEN ev.offr # 0 ELSE offv % 8 # 0) THEN {"alignment"} ELSE {})
+      \cup (IF n > (IF Wide(ev) THEN ArenaU ELSE Arena) - offv THEN {"outside_arena"} ELSE {})
       \cup (IF \E j \in DOMAIN others : j # id /\ (Overlaps(offv, n, others[j].off, others[j].n) \/ offv = others[j].off)
             THEN {"overlap"} ELSE {}))
-FlBytes == [i \in 1..Len(fl') |-> <<fl'[i].a * 8, fl'[i].p * 8>>]
+K(ev) == IF Wide(ev) THEN 1 ELSE 8
+FlOf(ev) == [i \in 1..Len(fl') |-> <<fl'[i].a * K(ev), fl'[i].p * K(ev)>>]
 HeapDrift(ev, offm) ==
-   (IF ev.brk # (IF brk' = 0 /\ ev.brk = -1 THEN -1 ELSE brk' * 8) THEN {"impl_brk"} ELSE {})
-   \cup (IF ev.fl # FlBytes THEN {"impl_freelist"} ELSE {})
+   (IF ev.brk # (IF brk' = 0 /\ ev.brk = -1 THEN -1 ELSE brk' * K(ev)) THEN {"impl_brk"} ELSE {})
+   \cup (IF ev.fl # FlOf(ev) THEN {"impl_freelist"} ELSE {})
    \cup (IF offm # -2 /\ ev.off # offm THEN {"impl_address"} ELSE {})
+   \cup (IF ev.rem # 0 THEN {"impl_unit_remainder"} ELSE {})
 Restored(ev) == (DOMAIN mlive' = {}) => (ev.brk \in {-1, 0} /\ ev.fl = <<>>)
 
 JudgeHeap(ev, errs, offm) ==
    LET e2 == errs \cup (IF ev.corrupt # <<>> THEN {"contents_changed"} ELSE {})
                   \cup (IF Restored(ev) THEN {} ELSE {"break_not_restored"})
        dr == HeapDrift(ev, offm)
-   IN IF e2 # {} THEN Flag(l, SetToSeq(e2), [model_brk |-> brk' * 8, model_fl |-> FlBytes, model_off |-> offm]) /\ sync' = FALSE
-      ELSE IF dr # {} THEN Flag(l, SetToSeq(dr), [model_brk |-> brk' * 8, model_fl |-> FlBytes, model_off |-> offm]) /\ sync' = TRUE
+   IN IF e2 # {} THEN Flag(l, SetToSeq(e2), [model_brk |-> brk' * K(ev), model_fl |-> FlOf(ev), model_off |-> offm]) /\ sync' = FALSE
+      ELSE IF dr # {} THEN Flag(l, SetToSeq(dr), [model_brk |-> brk' * K(ev), model_fl |-> FlOf(ev), model_off |-> offm]) /\ sync' = TRUE
       ELSE sync' = TRUE
 
 HeapStep(ev) ==
    /\ UNCHANGED <<pl, plive, pcap>>
    /\ CASE ev.e = "Malloc" ->
-             /\ Malloc(ev.id, ev.n)
-             /\ mlive' = mlive @@ (ev.id :> [off |-> ev.off, n |-> ev.n])
-             /\ JudgeHeap(ev, BlockErrs(ev.id, ev.off, ev.n, mlive), lastret' * 8)
+             /\ MallocP(ev.id, ReqP(ev))
+             /\ mlive' = mlive @@ (ev.id :> [off |-> ev.off, n |-> ReqN(ev)])
+             /\ JudgeHeap(ev, BlockErrs(ev, ev.id, ev.off, ReqN(ev), mlive), lastret' * K(ev))
         [] ev.e = "Free" ->
              /\ Free(ev.id)
              /\ mlive' = [i \in DOMAIN mlive \ {ev.id} |-> mlive[i]]
              /\ JudgeHeap(ev @@ [off |-> 0], IF ev.bad_at # -1 THEN {"contents_changed"} ELSE {}, -2)
         [] ev.e = "FreeNull" -> UNCHANGED <<vars, mlive>> /\ JudgeHeap(ev @@ [off |-> 0], {}, -2)
         [] ev.e = "Realloc" ->
-             /\ Realloc(ev.id, ev.n)
-             /\ mlive' = [mlive EXCEPT ![ev.id] = [off |-> ev.off, n |-> ev.n]]
-             /\ JudgeHeap(ev, BlockErrs(ev.id, ev.off, ev.n, mlive) \cup (IF ev.bad_at # -1 THEN {"prefix_not_preserved"} ELSE {}), lastret' * 8)
+             /\ ReallocP(ev.id, ReqP(ev))
+             /\ mlive' = [mlive EXCEPT ![ev.id] = [off |-> ev.off, n |-> ReqN(ev)]]
+             /\ JudgeHeap(ev, BlockErrs(ev, ev.id, ev.off, ReqN(ev), mlive) \cup (IF ev.bad_at # -1 THEN {"prefix_not_preserved"} ELSE {}), lastret' * K(ev))
 
 JudgePool(ev, errs, cellm) ==
    LET n == Cardinality(plive')
